@@ -11,7 +11,14 @@ Line-protocol drivers + implementation-output checkers for C15.
 
 Names in op lines: `~` is the empty string, `+` a space, everything else the ASCII byte itself.
 Addresses: `A B C D` accounts, `N` a valid address without an account, `G` the gov module account
-(keeper authority), `X` not bech32, `-` the empty string.
+(keeper authority), `X` not bech32, `-` the empty string.  A trailing `^` (`A^`) is the all-upper-case
+bech32 spelling of the same address: `sdk.AccAddressFromBech32` accepts it, `addr.String()` of the
+parsed address is the canonical `A`.
+
+`genesis <min> <max> <levels> <name/addr/restricted,…>` starts (or continues) a history with the real
+`GenesisState.Validate` + `Keeper.InitGenesis` on a generated genesis state (names and addresses in
+either spelling, children before parents, orphans, duplicates, malformed entries);
+`rlookup <addr>` is the `ReverseLookup` query asked with the address spelled as given.
 -/
 import PvModel.NameSpec
 import PvModel.Sha256
@@ -32,9 +39,13 @@ def encAddr (a : Addr) : String := if a = "" then "-" else a
 
 def knownAddrs : List Addr := ["A", "B", "C", "D", "N", "G"]
 
+/-- canonical spelling of a symbolic address: `A^` ↦ `A` -/
+def canonD (a : Addr) : Addr := if a.endsWith "^" then (a.dropEnd 1).toString else a
+
 def mkCfg {κ : Type} (H : Bytes → κ) (minSeg maxSeg maxLevels : Nat) : Cfg κ :=
   { H := H, minSeg := minSeg, maxSeg := maxSeg, maxLevels := maxLevels, authority := "G",
-    addrOk := fun a => knownAddrs.contains a,
+    addrOk := fun a => knownAddrs.contains (canonD a),
+    canon := canonD,
     hasAccount := fun a => knownAddrs.contains a && a != "N" }
 
 def showRes {α : Type} (f : α → String) : Except Err α → String
@@ -109,6 +120,10 @@ def samePreimage (a b : Bytes) : Bool :=
 def collides (recs : List Record) (n : Bytes) : Bool :=
   recs.any fun r => r.name ≠ n && samePreimage r.name n
 
+/-- a record with its address in canonical spelling: "the signer is the owner" is a statement about
+addresses (bytes), not about the spelling a message or a stored record uses -/
+def canonRec (r : Record) : Record := { r with addr := canonD r.addr }
+
 /-- "A name can be bound only under an existing parent and, if the parent is restricted, only by
 the parent's owner", judged for a name that a bind message brought into being: its IMMEDIATE
 parent (the name minus its first segment — whatever parent the message mentioned) must be a
@@ -120,49 +135,53 @@ def parentProblem (pre : List Record) (signer : Addr) (name : Bytes) : Option St
   match findByName pre p with
   | none => if collides pre p then some "fail:key_collision" else some "fail:bind_immediate_parent_missing"
   | some par =>
-    if bindAllowed (some par) signer then none else some "fail:bind_under_restricted_parent_nonowner"
+    if bindAllowed (some (canonRec par)) (canonD signer) then none
+    else some "fail:bind_under_restricted_parent_nonowner"
 
 /-- verdict for a message the implementation ACCEPTED, against the implementation's state before it -/
 def checkAccepted (pre : Dump) : Op → String
-  | .root a _ _ _ => if rootAllowed "G" a then "ok" else "fail:root_nonauthority"
+  | .root a _ _ _ => if rootAllowed "G" (canonD a) then "ok" else "fail:root_nonauthority"
   | .bind pn pa rn _ _ =>
     let p := normalizeName pn
     match findByName pre.recs p with
     | none => if collides pre.recs p then "fail:key_collision" else "fail:bind_no_parent"
     | some par =>
-      if !bindAllowed (some par) pa then "fail:bind_restricted_nonowner"
+      if !bindAllowed (some (canonRec par)) (canonD pa) then "fail:bind_restricted_nonowner"
       else (parentProblem pre.recs pa (normalizeName (rn ++ dot :: pn))).getD "ok"
   | .modify a n _ _ =>
     let t := normalizeName n
     match findByName pre.recs t with
     | none => if collides pre.recs t then "fail:key_collision" else "fail:modify_unbound"
-    | some e => if modifyAllowed "G" (some e) a then "ok" else "fail:modify_nonowner"
+    | some e => if modifyAllowed "G" (some (canonRec e)) (canonD a) then "ok" else "fail:modify_nonowner"
   | .delete n a =>
     let t := normalizeName n
     match findByName pre.recs t with
     | none => if collides pre.recs t then "fail:key_collision" else "fail:delete_unbound"
-    | some e => if deleteAllowed (some e) a then "ok" else "fail:delete_nonowner"
+    | some e => if deleteAllowed (some (canonRec e)) (canonD a) then "ok" else "fail:delete_nonowner"
 
 def recsKey (l : List Record) : List String := sortStrs (l.map showRec)
 
+/-- "the by-address lookup lists exactly the names currently bound to each address": the listing of
+address `a` is, up to order, the records whose address string PARSES to `a` — a record stored with
+another spelling of `a` is still bound to `a` (its index entry sits under `a`'s bytes). -/
 def indexProblem (d : Dump) : Option String :=
-  let bad := d.idx.find? fun (a, l) => recsKey l != recsKey (d.recs.filter fun r => r.addr = a)
+  let bad := d.idx.find? fun (a, l) => recsKey l != recsKey (d.recs.filter fun r => canonD r.addr = a)
   if bad.isSome then some "fail:index_mismatch" else
   let bad := d.rev.find? fun (a, l) =>
-    sortStrs (l.map encName) != sortStrs ((d.recs.filter fun r => r.addr = a).map (encName ·.name))
+    sortStrs (l.map encName) != sortStrs ((d.recs.filter fun r => canonD r.addr = a).map (encName ·.name))
   if bad.isSome then some "fail:reverse_lookup_mismatch" else
-  if d.recs.any (fun r => !(d.idx.any fun (a, _) => a = r.addr)) then some "fail:index_mismatch" else none
+  if d.recs.any (fun r => !(d.idx.any fun (a, _) => a = canonD r.addr)) then some "fail:index_mismatch" else none
 
 def effectOk (pre post : Dump) : Op → Bool
   | .root _ n o r =>
     (rootSuffixes n).all fun s =>
       match findByName pre.recs s with
       | some e => findByName post.recs s == some e
-      | none => findByName post.recs s == some ⟨s, o, r⟩
+      | none => findByName post.recs s == some ⟨s, canonD o, r⟩
   | .bind pn _ rn ra r =>
     let t := normalizeName (rn ++ dot :: pn)
-    (findByName pre.recs t).isNone && findByName post.recs t == some ⟨t, ra, r⟩
-  | .modify _ n ad r => let t := normalizeName n; findByName post.recs t == some ⟨t, ad, r⟩
+    (findByName pre.recs t).isNone && findByName post.recs t == some ⟨t, canonD ra, r⟩
+  | .modify _ n ad r => let t := normalizeName n; findByName post.recs t == some ⟨t, canonD ad, r⟩
   | .delete n _ => (findByName post.recs (normalizeName n)).isNone
 
 def isNormalizedB {κ : Type} (cfg : Cfg κ) (n : Bytes) : Bool :=
@@ -170,10 +189,16 @@ def isNormalizedB {κ : Type} (cfg : Cfg κ) (n : Bytes) : Bool :=
   | .ok m => m == n
   | .error _ => false
 
+/-- what happened since the previous dump: a message, or a genesis import, and whether the
+implementation accepted it -/
+inductive Last
+  | msg (op : Op) (accepted : Bool)
+  | genesis (bindings : List Record) (accepted : Bool)
+
 /-- verdict for a `dump`: index agreement on the dumped state, and "records never change except
 by these messages" against the previous dump and the message in between; every stored name is
 valid, normalized and within the limits. -/
-def checkDump (cfg : Cfg Bytes) (pre : Dump) (last : Option (Op × Bool)) (d : Dump) : String :=
+def checkDump (cfg : Cfg Bytes) (pre : Dump) (last : Option Last) (d : Dump) : String :=
   if (d.recs.map (·.name)).eraseDups.length ≠ d.recs.length then "fail:duplicate_name" else
   if d.recs.any (fun r => !isNormalizedB cfg r.name) then "fail:stored_name_outside_limits" else
   match indexProblem d with
@@ -181,7 +206,15 @@ def checkDump (cfg : Cfg Bytes) (pre : Dump) (last : Option (Op × Bool)) (d : D
   | none =>
     match last with
     | none => "ok"
-    | some (op, accepted) =>
+    | some (.genesis bs accepted) =>
+      if !accepted then
+        if recsKey pre.recs == recsKey d.recs then "ok" else "fail:rejected_genesis_changed_state"
+      else
+        -- the import binds every binding of the file (normalized name, the address it parses to,
+        -- its restriction) and nothing else; what was there stays
+        let want := bs.map fun b => (⟨normalizeName b.name, canonD b.addr, b.restricted⟩ : Record)
+        if recsKey d.recs == recsKey (pre.recs ++ want) then "ok" else "fail:genesis_effect"
+    | some (.msg op accepted) =>
       if !accepted then
         if recsKey pre.recs == recsKey d.recs then "ok" else "fail:rejected_op_changed_state"
       else
@@ -199,6 +232,20 @@ def checkDump (cfg : Cfg Bytes) (pre : Dump) (last : Option (Op × Bool)) (d : D
         match born.findSome? (parentProblem pre.recs op.signer) with
         | some c => c
         | none =>
+        -- "only a name's owner or governance can modify it and only its owner can delete it", on the
+        -- outcome whatever the message kind: an existing record that is altered or gone was the
+        -- signer's (the address the signer string parses to) or the signer is governance
+        if pre.recs.any (fun r => !d.recs.contains r && canonD op.signer != canonD r.addr && canonD op.signer != "G")
+        then "fail:record_changed_by_nonowner_nongov" else
+        -- root creation establishes every level: no name it brought into being hangs below an unbound name
+        let rootBorn : List Bytes := match op with
+          | .root .. => (d.recs.filter fun (r : Record) => (findByName pre.recs r.name).isNone).map Record.name
+          | _ => []
+        let hanging := rootBorn.filter fun n => (splitDot n).length ≥ 2 && (findByName d.recs (immediateParent n)).isNone
+        if !hanging.isEmpty then
+          if hanging.all fun n => collides d.recs (immediateParent n) then "fail:key_collision"
+          else "fail:root_created_name_under_unbound_parent"
+        else
         if effectOk pre d op then "ok"
         else if targets.any fun t => collides pre.recs t then "fail:key_collision"
         else match op with
@@ -216,6 +263,16 @@ def checkResolve (pre : Dump) (n : Bytes) (impl : List String) : String :=
   | ["err:notfound"] => if (findByName pre.recs t).isSome then "fail:lookups_disagree" else "ok"
   | _ => "ok"
 
+/-- verdict for `rlookup a`: the `ReverseLookup` query must list exactly the names bound to the
+address the request string parses to, however it is spelled. -/
+def checkRLookup (pre : Dump) (a : Addr) (impl : List String) : String :=
+  let want := sortStrs ((pre.recs.filter fun r => canonD r.addr = canonD a).map (encName ·.name ++ "/"))
+  match impl with
+  | ["ok", l] =>
+    if sortStrs (splitList l ";") == want then "ok"
+    else if a ≠ canonD a then "fail:reverse_lookup_spelling" else "fail:reverse_lookup_mismatch"
+  | _ => if knownAddrs.contains (canonD a) then "fail:reverse_lookup_mismatch" else "ok"
+
 structure DSt where
   minSeg : Nat := 2
   maxSeg : Nat := 32
@@ -223,8 +280,8 @@ structure DSt where
   st : State Bytes := {}
   /-- the implementation's last dump -/
   pre : Option Dump := none
-  /-- the message since the last dump and whether the implementation accepted it -/
-  last : Option (Op × Bool) := none
+  /-- the message / genesis import since the last dump and whether the implementation accepted it -/
+  last : Option Last := none
 
 def DSt.cfg (d : DSt) : Cfg Bytes := mkCfg id d.minSeg d.maxSeg d.maxLevels
 
@@ -243,6 +300,24 @@ def stepName (d : DSt) (op : String) (impl : Option String) : DSt × String × S
     match impl.bind parseDump with
     | some di => ({ d with pre := some di, last := none }, out, checkDump cfg d.view d.last di)
     | none => ({ d with last := none }, out, if impl.isSome then "fail:unparsed" else "-")
+  | ["genesis", a, b, c, bs] =>
+    match parseNat? a, parseNat? b, parseNat? c, (splitList bs ",").mapM parseRec with
+    | some a, some b, some c, some bs =>
+      let gcfg := mkCfg id a b c
+      let (d', out) :=
+        if !validateGenesis bs then (d, "err:basic")
+        else match initGenesis gcfg d.st bs with
+          | .ok st' => ({ d with minSeg := a, maxSeg := b, maxLevels := c, st := st' }, "ok")
+          | .error e => (d, "panic:" ++ (e.toString.drop 4).toString)
+      let accepted := match impl with | some i => i = "ok" | none => out = "ok"
+      ({ d' with last := some (.genesis bs accepted) }, out, if impl.isSome then "ok" else "-")
+    | _, _, _, _ => (d, "bad-op", "-")
+  | ["rlookup", a] =>
+    let a := decAddr a
+    let out := match reverseLookup cfg d.st a with
+      | .ok l => "ok " ++ joinOr (sortStrs (l.map fun n => encName n ++ "/")) ";"
+      | .error e => e.toString
+    (d, out, match impl with | some i => checkRLookup d.view a (words i) | none => "-")
   | ["resolve", n] =>
     let n := decName n
     let out := match normalize cfg n with
@@ -262,7 +337,7 @@ def stepName (d : DSt) (op : String) (impl : Option String) : DSt × String × S
       let verdict := match impl with
         | some i => if i = "ok" then checkAccepted d.view o else "ok"
         | none => "-"
-      ({ d with st := st', last := some (o, accepted) }, out, verdict)
+      ({ d with st := st', last := some (.msg o accepted) }, out, verdict)
 
 def driver : Driver where
   σ := DSt
